@@ -292,6 +292,13 @@ func (r *aeRun) posInd(key string, p int) int {
 			r.posInd(lk, p)
 		}
 	}
+	if d := r.ctx.subDomain(key, ti); d != nil && d.closed {
+		for _, s := range d.allowed {
+			if poolIndex(r.ctx.pools[key], constant.MakeString(s)) < 0 {
+				panic(poolMiss{key, constant.MakeString(s)})
+			}
+		}
+	}
 	if o, ok := r.ctx.originOf[key]; ok && ti.kind == akOrder && isStringType(ti.t) {
 		if d := r.ctx.fieldDomainFor(key, o); d != nil && d.closed {
 			for _, s := range d.allowed {
@@ -1533,13 +1540,20 @@ func (r *aeRun) derived(name string, args []any, t types.Type) any {
 			case avConst:
 			case avTerm:
 				all = false
+				closedDom := false
 				if o, ok := r.ctx.originOf[x.key]; ok && isStringType(x.t) {
 					if d := r.ctx.fieldDomain(o); d != nil && d.closed {
-						pos := r.posOf(x.key, x.side)
-						if pos%2 == 1 && pos/2 < len(r.ctx.pools[x.key]) {
-							sub[i] = avConst{r.ctx.pools[x.key][pos/2]}
-							all = true
-						}
+						closedDom = true
+					}
+				}
+				if d := r.ctx.subDomain(x.key, r.ctx.terms[x.key]); d != nil && d.closed {
+					closedDom = true
+				}
+				if closedDom {
+					pos := r.posOf(x.key, x.side)
+					if pos%2 == 1 && pos/2 < len(r.ctx.pools[x.key]) {
+						sub[i] = avConst{r.ctx.pools[x.key][pos/2]}
+						all = true
 					}
 				}
 			default:
